@@ -350,6 +350,26 @@ Section Stmt.
         Val (Some v, if isT (cur ts) TyRow || isT (cur ts) TyRows then advance ts else ts)
     else Val (None, ts).
 
+  (* parseFetchClause *)
+  Definition ps_fetch (ts : list token) : outcome (option gfetch * list token) :=
+    if isT (cur ts) TyFetch then
+      let ts := advance ts in
+      do (ft, ts) <- (if isT (cur ts) TyFirst then Val ("FIRST", advance ts)
+                      else if isT (cur ts) TyNext then Val ("NEXT", advance ts) else Err EExpected);
+      if negb (is_numeric_literal (cur ts)) then Err EExpected
+      else
+        let v := sscanf_d (lit (cur ts)) in
+        let ts := advance ts in
+        let pct := isT (cur ts) TyPercent in
+        let ts := if pct then advance ts else ts in
+        let ts := if isT (cur ts) TyRow || isT (cur ts) TyRows then advance ts else ts in
+        if isT (cur ts) TyOnly then Val (Some (GFetch ft (Some v) pct false), advance ts)
+        else if isT (cur ts) TyWith then
+          let ts := advance ts in
+          if negb (isT (cur ts) TyTies) then Err EExpected else Val (Some (GFetch ft (Some v) pct true), advance ts)
+        else Val (Some (GFetch ft (Some v) pct false), ts)
+    else Val (None, ts).
+
   (* parseSelectStatement: the SELECT keyword is already consumed *)
   Definition parse_select (d0 : nat) (ts : list token) : sres gselect :=
     if md <? S d0 then Err EDepth
@@ -369,8 +389,9 @@ Section Stmt.
           do (ob, ts) <- ps_order d ts;
           do (lim, ts) <- ps_limit ts;
           do (off, ts) <- ps_offset ts;
-          if isT (cur ts) TyFetch || isT (cur ts) TyFor then Unmodelled
-          else Val (GSelect None (fst dd) (snd dd) cols (snd (fst fj)) (fst (fst fj)) (snd fj) wh gb hv ob lim off None None, ts).
+          do (fe, ts) <- ps_fetch ts;
+          if isT (cur ts) TyFor then Unmodelled
+          else Val (GSelect None (fst dd) (snd dd) cols (snd (fst fj)) (fst (fst fj)) (snd fj) wh gb hv ob lim off fe None, ts).
 
   (* parseSelectWithSetOperations: the first SELECT keyword is already consumed *)
   Fixpoint setops_loop (n : nat) (d : nat) (left : gstmt) (ts : list token) : sres gstmt :=
